@@ -61,6 +61,7 @@ inductive Behav where
   | echo                        -- return the name / key it was asked for
   | slot (attr : String)        -- return the instance attribute `attr` (raw: object.__getattribute__)
   | table (attr : String)       -- return <raw instance attribute attr>[name]
+  | glomTable (attr : String)   -- return glom(<raw instance attribute attr>, Path(name)): a nested glom call
   deriving DecidableEq, Repr, Inhabited
 
 structure ClsInfo where
@@ -216,6 +217,7 @@ def runBehav0 (h : Heap) (b : Behav) (cur arg : Val) : Acc :=
     | some v => .ok v
     | none => .err (exc "AttributeError")
   | .table _ => .beyond
+  | .glomTable _ => .beyond
 
 /-! ### `cur[key]` -/
 
@@ -253,8 +255,29 @@ def pyGetitem2 (k : KEnv) (h : Heap) (cur key : Val) : Acc :=
   | .none | .bool _ | .int _ => .err (exc "TypeError")
   | _ => .beyond
 
+/-- **a nested glom call made by an accessor**: `glom(d, Path(arg))` with the default
+    registry on a plain dict `d` — the value, or the *inner* PathAccessError (one segment,
+    part 0) that call ends with; any other `d` is outside the modelled domain -/
+def glomOnTable (k : KEnv) (h : Heap) (d arg : Val) : Acc :=
+  match d with
+  | .ref a =>
+    match h[a]? with
+    | some (.dict c _) =>
+      if c == "dict" || c == "OrderedDict" then
+        match pyGetitem2 k h d arg with
+        | .ok v => .ok v
+        | .err _ => .err ⟨"PathAccessError"⟩
+        | .beyond => .beyond
+      else .beyond
+    | _ => .beyond
+  | _ => .beyond
+
 def runBehav (k : KEnv) (h : Heap) (b : Behav) (cur arg : Val) : Acc :=
   match b with
+  | .glomTable a =>
+    match instAttr h cur a with
+    | some d => glomOnTable k h d arg
+    | none => .err (exc "AttributeError")
   | .table a =>
     match instAttr h cur a with
     | some d => pyGetitem2 k h d arg
